@@ -123,4 +123,16 @@ mut("C07 u_trop multiplied by kappa squared", [(SAM, "            u_trop *= &x_v
 mut("C07 rescaling skips the first parameter", [(SAM, "x_vec.iter_mut().for_each(|x| *x *= &scaling);", "x_vec.iter_mut().skip(1).for_each(|x| *x *= &scaling);")], C07="C07-c")
 mut("C07 N: target written with one division", [(SAM, "        * (u_trop.ref_div(&xi_trop))\n            .powf(&xi_trop.from_f64(tropical_subgraph_table.tropical_graph.dod));", "        * (v_trop.inv())\n            .powf(&xi_trop.from_f64(tropical_subgraph_table.tropical_graph.dod));")], C07=None, C11=None)
 
+# ---- C03 / C04 ----
+mut("C03 literal 1.5 for D/2 in the generalized dod", [(PRE, "weight_sum - loop_number as f64 * dimension as f64 / 2.0 - tropical_graph.dod", "weight_sum - loop_number as f64 * 1.5 - tropical_graph.dod")], C03="C03-b")
+mut("C03 spanning subtraction dropped", [(PRE, "weight_sum - loop_number as f64 * dimension as f64 / 2.0 - tropical_graph.dod", "weight_sum - loop_number as f64 * dimension as f64 / 2.0")], C03="C03-b")
+mut("C03 get_num_edges returns the table length", [(LIB, "    pub fn get_num_edges(&self) -> usize {\n        self.table.tropical_graph.topology.len()", "    pub fn get_num_edges(&self) -> usize {\n        self.table.table.len()")], C03="C03-d")
+mut("C03 left/right swapped with weight source", [(PRE, "                left: edge.vertices.0,\n                right: edge.vertices.1,", "                left: edge.vertices.0,\n                right: edge.vertices.0,")], C03="C03-a")
+mut("C03 dod uses dimension squared", [(PRE, "let dod = weight_sum - (loop_number as f64 * dimension as f64) / 2.;", "let dod = weight_sum - (loop_number as f64 * dimension as f64 * dimension as f64) / 2.;")], C03="C03-a")
+mut("C03 N: refactored arithmetic", [(PRE, "weight_sum - loop_number as f64 * dimension as f64 / 2.0 - tropical_graph.dod", "weight_sum - 0.5 * (loop_number * dimension) as f64 - tropical_graph.dod")], C03=None)
+mut("C04 pi exponent loses the loop count", [(PRE, "f64::consts::PI.powf((dimension * tropical_graph.num_loops) as f64 / 2.)", "f64::consts::PI.powf(dimension as f64 / 2.)")], C04="C04-b")
+mut("C04 divisor indexed by the parent graph", [(PRE, "                        / table[g.id].generalized_dod.unwrap()", "                        / table[subgraph_id.id].generalized_dod.unwrap()")], C04="C04-a")
+mut("C04 base case returns zero", [(PRE, "            let j_function = 1.0;\n            table[subgraph_id.id].j_function = Some(j_function);", "            let j_function = 0.0;\n            table[subgraph_id.id].j_function = Some(j_function);")], C04="C04-a")
+mut("C04 gamma of dod replaced by gamma of dod+1", [(PRE, "let gamma_omega = gamma(tropical_graph.dod);", "let gamma_omega = gamma(tropical_graph.dod + 1.0);")], C04="C04-b")
+
 MUTATIONS = M
